@@ -1356,7 +1356,7 @@ class ContinuousSpace:
             self._index_to_agent[idx] = agent
         # Since dicts are ordered by insertion, we can iterate through agents keys
         self._agent_points = np.array(
-            [agent.pos for agent in self._agent_to_index]
+            [agent.pos for agent in self._agent_to_index], dtype=float
         ).reshape(-1, 2)
 
     def _invalidate_agent_cache(self):
